@@ -424,7 +424,7 @@ class Run(object):
                             # DESIGN C15: the real parser accepting what decode_exact rejects is a violation
                             cls = ent.cls
                             ctx.violation("c15:%s:accepts-what-framing-rejects" % cls,
-                                          "%s accepted %d bytes that the format's framing (Lean model, decode_exact) rejects: %s"
+                                          "%s accepted %d bytes that the Lean model of its parser (framing, length checks, duplicate-extension rule) rejects: %s"
                                           % (cls, len(data), data.hex()[:160]),
                                           {"format": ent.name, "class": cls, "kind": kind, "bytes": data.hex(),
                                            "defect": "accepts-what-framing-rejects", "model": m[:100]})
